@@ -176,7 +176,7 @@ UNDECIDED_COMMON = [
 
 
 def make_unit(name, struct, src, lang, cfg_body, prelude_extra, special_edits, overrides=None, gen_brackets=('<', '>'),
-              gen_params_override=None, extra_items=(), trusted_extra=(), undecided_extra=(), special_auto=('fmt', 'strlit')):
+              gen_params_override=None, extra_items=(), trusted_extra=(), undecided_extra=(), special_auto=('fmt', 'strlit'), x12=None):
     """overrides: {method: (edits, auto)} for methods the back end defines itself (taken from `impl Language for X`);
     every other method of the four is the trait's default (mod.rs)."""
     overrides = overrides or {}
@@ -212,8 +212,10 @@ impl %s {
             taken[m] = 'trait default'
     items.append(Item('format_special_type', src, [impl, 'fn format_special_type'], special_edits, wrap=w, auto=tuple(special_auto) + (KEY_RULE,)))
     items += list(extra_items)
+    if x12:
+        apply_x12(items, x12)
     u = Unit(
-        name=name, props=['C05', 'C07'], pre_verus=PRE_VERUS, spec_files=['std_slices.rs', 'typexpr.rs', 'txt.rs'], prelude=prelude, items=items,
+        name=name, props=['C05', 'C07'] + (['C12'] if x12 else []), pre_verus=PRE_VERUS, spec_files=['std_slices.rs', 'typexpr.rs', 'txt.rs'], prelude=prelude, items=items,
         functions=['%s::%s' % (struct, f) for f in ('format_type', 'format_simple_type', 'format_generic_type', 'format_generic_parameters',
                                                     'format_special_type', 'type_map')],
         trusted=TRUSTED_COMMON + [
@@ -257,3 +259,23 @@ FORBID = ['format!', 'write!', 'writeln!', '.into()', '.to_string()', 'String::f
 
 # std / vstd-specified calls the translators may make besides the functions defined in the unit (closed-world check of vunit.build)
 ALLOWED_CALLS = {'get', 'contains', 'to_owned', 'clone', 'as_ref', 'push', 'push_str', 'is_empty', 'iter', 'new', 'as_slice', 'store', 'len'}
+
+
+def apply_x12(items, x):
+    """C12 clauses of a back end, added to the contracts of its formatting functions: x['frame'] - the helper bookkeeping only grows (every
+    function); x['ty'] / x['gen'] / x['special'] - helpers recorded when the translation of a type / an argument list / a built-in type
+    reaches them; x['inv'] - the same for the arguments translated so far (loop invariant of format_generic_type)."""
+    import copy
+    FRAME = 'final(self).cfg() == old(self).cfg(),'
+    per = {'format_type.contract': x.get('ty', ''), 'format_generic_type.contract': x.get('gen', ''), 'format_special_type.contract': x.get('special', ''),
+           'format_simple_type.contract': '', 'format_generic_parameters.contract': '', 'type_map.contract': None}
+    for it in items:
+        new = []
+        for e in it.edits:
+            e = copy.copy(e)
+            if e.cid in per and per[e.cid] is not None and FRAME in e.text:
+                e.text = e.text.replace(FRAME, FRAME + ' ' + x['frame'] + ' ' + per[e.cid], 1)
+            if e.kind == 'rep' and 'acc@.len() == it.index@,' in e.text and x.get('inv'):
+                e.text = e.text.replace('acc@.len() == it.index@,', 'acc@.len() == it.index@, ' + x['inv'], 1)
+            new.append(e)
+        it.edits = new
